@@ -88,8 +88,10 @@ def _rand_line(rng):
 
 
 def _enum_cases(names, values, maxlen):
+    # the fold (obs-fold continuation line) appends to the last value of `_last_key`: cache invalidation on that
+    # path only shows after add, add (2 values), get (fills the cache), fold, get
     muts = [["add", n, v] for n in names for v in values] + [["set", n, v] for n in names for v in values] \
-        + [["del", n] for n in names] + [["get", n] for n in names]
+        + [["del", n] for n in names] + [["get", n] for n in names] + [["parseLine", " c"]]
     tail = [["getAll"], ["keys"], ["len"]] + [["contains", n] for n in names[:2]] + [["get", names[0]], ["getList", names[-1]]]
     for L in range(0, maxlen + 1):
         for seq in itertools.product(muts, repeat=L):
@@ -106,7 +108,16 @@ def gen_cases(rng, tier):
         yield from _enum_cases(["a", "A"], ["1"], 5)
     for _ in range(n_rand):
         k = rng.random()
-        if k < 0.6:
+        if k < 0.12:
+            # targeted: build a (possibly multi-valued) header, read it, fold a continuation line into it, read again
+            name = rng.choice(NAMES)
+            ops = [["add", rng.choice([name, name.upper(), name.lower()]), rng.choice(VALUES)] for _ in range(rng.randint(1, 3))]
+            ops += rng.choice([[], [["get", name]], [["get", name], ["getAll"]], [["contains", name]]])
+            ops += [["parseLine", rng.choice([" ", "\t", "  "]) + rng.choice(VALUES[:4] + ["x"]) + rng.choice(["", "\r\n", "\n"])]
+                    for _ in range(rng.randint(1, 2))]
+            ops += [["get", name], ["getList", name], ["str"], ["getAll"]]
+            yield {"kind": "ops", "ops": ops}
+        elif k < 0.6:
             yield {"kind": "ops", "ops": _rand_ops(rng, rng.randint(1, 30))}
         elif k < 0.8:
             yield {"kind": "copy", "ops": _rand_ops(rng, rng.randint(0, 12)), "after": _rand_ops(rng, rng.randint(1, 6)),
